@@ -353,3 +353,9 @@ func CheckNode(n *Node, m *refmodel.Log, limit int) (int, error) {
 	}
 	return len(qs), judge(as)
 }
+
+// SnapOf builds the snapshot a client would use for an answer naming
+// (queryV, currentV), from the model's digests.
+func SnapOf(m *refmodel.Log, queryV, currentV uint64) *balloon.Snapshot {
+	return &balloon.Snapshot{HistoryDigest: m.Snapshots[queryV].HistoryDigest[:], HyperDigest: m.Snapshots[currentV].HyperDigest[:]}
+}
